@@ -473,6 +473,10 @@ class Interp:
                     return Const(x > y)
                 if op == "Ge":
                     return Const(x >= y)
+                if op in ("Div", "Rem") and isinstance(x, int) and isinstance(y, int) and not isinstance(x, bool) and y != 0:
+                    # Rust semantics: truncation toward zero, the remainder takes the sign of the dividend
+                    q = abs(x) // abs(y) * (1 if (x >= 0) == (y >= 0) else -1)
+                    return Const(q if op == "Div" else x - q * y)
                 if op == "BitAnd" and isinstance(x, bool):
                     return Const(x and y)
                 if op == "BitOr" and isinstance(x, bool):
